@@ -7,7 +7,7 @@ CONSTANTS
   Programs <- ValPrograms
   SubKinds <- Kinds
   InitStores <- ValStores
-  PublishAfterUnlock = TRUE
+  PublishAfterUnlock = FALSE
   CreatedRevalidated = TRUE
 INVARIANT EmitSched
 CHECK_DEADLOCK FALSE
